@@ -41,9 +41,19 @@ def graph_units(tier):
     return [c03.case_unit(n, c) for n, c in enumerate(cases)], r
 
 
-def build_fresh(units, tag):
+# one generic definition instantiated at several values of a const parameter, in ONE process (the declaration
+# depends on the value; the instantiations share the definition's statics, if it has any)
+CONST_PRELUDE = "#[derive(TS)] pub struct Grid<T, const N: usize> { pub cells: [T; N], pub n: i32 } #[derive(TS)] pub struct Plain<T> { pub t: Vec<T> }"
+CONST_UNITS = [("GridA", "Grid<u8, 2>"), ("GridB", "Grid<u8, 3>"), ("GridC", "Grid<String, 0>"), ("GridD", "Grid<u8, 65>"), ("PlainA", "Plain<i32>"), ("PlainB", "Plain<String>")]
+
+
+def const_units():
+    return [corpus.Unit(n, "pub type %s = %s;" % (n, ty), [], serde=False, meta={"group": "Grid", "src": ty}) for n, ty in CONST_UNITS]
+
+
+def build_fresh(units, tag, reverse=False):
     """an independent compilation: its own workspace copy and target directory"""
-    c = corpus.Corpus(tag, units, extra_prelude="pub struct Opaque; " + c03.EXPR_PRELUDE)
+    c = corpus.Corpus(tag, units, extra_prelude="pub struct Opaque; " + c03.EXPR_PRELUDE + " " + CONST_PRELUDE)
     shutil.rmtree(c.dir, ignore_errors=True)
     if os.path.exists(c.cache):
         os.remove(c.cache)
@@ -59,7 +69,7 @@ def build_fresh(units, tag):
     c.export(reqs)
     trees = {u.name: c03.snapshot(os.path.join(sandbox, u.name)) for u in units}
     shutil.rmtree(sandbox, ignore_errors=True)
-    return obs, trees
+    return obs, trees, (c.observe_reversed() if reverse else None)
 
 
 def thread_runs(tier, seed):
@@ -111,14 +121,17 @@ def run(tier):
     t0 = time.time()
     v = vlib.Verdicts(PROP)
     units, gr = graph_units(tier)
+    units = units + const_units()
     builds = []
     for b in range(2 if tier == "quick" else 4):
-        builds.append(build_fresh(units, "det%d" % b))
+        builds.append(build_fresh(units, "det%d" % b, reverse=(b == 0)))
     recs, meta = [], []
     fields = ("decl", "decl_concrete", "name", "inline", "inline_flattened", "export_to_string", "output_path", "docs")
     for u in units:
         for f in fields:
             vals = [{"cond": "build%d" % b, "value": json.dumps(builds[b][0][u.name]["info"][f], sort_keys=True)} for b in range(len(builds))]
+            # the same build asked in the opposite order of types (one process)
+            vals.append({"cond": "build0, calls in reverse order", "value": json.dumps(builds[0][2][u.name]["info"][f], sort_keys=True)})
             recs.append({"what": "%s::%s" % (u.name, f), "values": vals})
             meta.append(("string function", u.name, f, u.src))
         files = sorted(set().union(*[set(builds[b][1][u.name]) for b in range(len(builds))]))
